@@ -99,11 +99,11 @@ def aim(rng, kinds, op, reg, focus):
     elif op in ('rv',):
         want = ('List',)
     elif op in ('so',):
-        want = ('Array',)
+        want = ('Array', 'Array', 'Tuple')
     elif op in ('ib',):
         want = ('List', 'Table', 'Tree', 'Tuple')
     elif op in ('cc', 'ap', 'rs', 'cl'):
-        want = ('Array', 'List', 'String', 'Table', 'Tree')
+        want = ('Array', 'List', 'String', 'Table', 'Tree', 'Tuple')
     elif op in ('sl', 'en', 'ma', 'zp'):
         want = ('Array', 'List')
     elif op in ('fi',):
@@ -389,6 +389,7 @@ CORPUS_WL = [
     'wl|na:0,0,5,3 it:0 pu:0,7 pa:0,5,2 ge:0,3 so:0,1 it:0 nl:1,2,4,1 it:1 ib:1 rv:1 nt:2,1,0,6,2 it:2 ge:2,3 rm:2,3 D '
     'tc:0,2,5,1 tn:1,2,3 rg:1,4,2 fm:0,12,-7 fm:2,5,9 fm:4,3,3 sn:5,17,33 ca:1,2,3 gc D nr:3,0,3,5,1 it:3 ib:3 nu:4,5,2 '
     'it:4 ib:4 sl:0,1,1 zp:0,1 en:1 fi:0,1 ma:0 ty:0 ty:2 ha:0 ha:2 cp:0,5 cm:0,5 cc:0,5 D dl:0 gc D',
+    'wl|nu:0,6,4 nu:1,3,8 nu:2,5,0 it:0 ha:0 cc:0,1 it:0 cc:0,1 so:0,1 nu:3,4,12 pu:3,4 pu:3,8 pu:3,0 it:3 gc D',
     'wl|th:5,17,3 th:0,39,4 mx:1 fl:3,17,5 fl:0,300,99999 th:1,1,1 gc D',
     'wl|nt:0,2,3,9,4 it:0 ge:0,3 rm:0,1 nr:1,5,0,12,9 it:1 ib:1 hp:0 hp:3 hp:5 hp:13 na:2,0,7,1 tf:2,3 tf:2,9 tf:0,1 rw:12,5,3 ni:3,-77 lk:3 iq:3 iq:0 iq:2 gc D',
     'wl|na:0,3,20,4 so:0,1 it:0 so:0,2 it:0 po:0 pt:0,-3 pa:0,9,-1 rs:0,3 it:0 cl:0 po:0 pu:0,1 D',
